@@ -70,7 +70,7 @@ def run(ctx):
     binary = ctx.go_build("internal/zzverif/c54")
 
     infeasible = 0
-    for cfg, limit in (("HealthGen.cfg", ctx.pick(2500, None)), ("HealthGen2.cfg", ctx.pick(2000, None))):
+    for cfg, limit in (("HealthGen.cfg", ctx.pick(2500, None)), ("HealthGen2.cfg", ctx.pick(2000, 8000))):
         g = ctx.dump_graph("HealthMC", cfg)
         behs = ctx.edge_cover(g, step_of, limit=limit)
         bpath = os.path.join(ctx.run, "beh-%s.ndjson" % cfg)
@@ -87,7 +87,7 @@ def run(ctx):
         ctx.cov["drift"] += infeasible
 
     tpath = os.path.join(ctx.run, "trace-random.ndjson")
-    n = ctx.pick(1000, 40000)
+    n = ctx.pick(1000, 10000)
     s = summary(ctx.driver(binary, "TestVerifC54Random", {"VERIF_OUT": tpath, "VERIF_N": n}, timeout=1200))
     ctx.count({"random_histories": n, "seed": ctx.seed}, n=n)
     judge(ctx, ctx.validate("HealthTrace", "HealthTrace.cfg", tpath), tpath, "random histories seed %d" % ctx.seed)
